@@ -17,7 +17,7 @@ Section Ref.
     end.
 
   (* known finding variant-keyerror-misreported: a KeyError leaving the selected class is reported as "no suitable variant" *)
-  Definition keyerr_to_notfound (o: outcome) : outcome := match o with OKeyErr _ => ONotFound | _ => o end.
+  Definition keyerr_to_notfound (o: outcome) : outcome := o.      (* the selected class's own KeyError surfaces *)
 
   (* what the property says, by recursion over the nesting only: no registry, no history *)
   Fixpoint ref_disp (cl: list cls) (fuel: nat) (s: site) (inp: inkeys) (present: list nat) : outcome :=
@@ -95,8 +95,7 @@ Section Ref.
       { apply reg_get_In in G'. unfold r' in G'. rewrite E in G'. apply refill_sound in G'; [|exact W|exact OK].
         destruct G' as [G'|G']; [|exact G']. rewrite <- E. eapply RS; eassumption. }
       rewrite (carriers_unique cl s t c W OK U C).
-      pose proof (EA _ c I') as H. destruct (enter (St (classes x0) ((k, r') :: rs)) c) as [x2 o]. cbn [snd] in H. subst o.
-      destruct (eref c); reflexivity.
+      exact (EA _ c I').
     - cbn [snd]. rewrite carriers_nil; [reflexivity | exact W | exact OK|]. intros c C.
       destruct (refill_complete _ _ (get_reg k (regs x0)) _ _ W C) as [c' E']. unfold r' in G'. rewrite E in G'. congruence.
   Qed.
@@ -111,12 +110,7 @@ Section Ref.
     destruct (reg_get t (get_reg k (regs x))) as [c|] eqn:G; [|apply refill_retry_ref; assumption].
     assert (C: carries cl s c t).
     { destruct I as [E RS]. rewrite <- E. eapply RS; [exact K | apply reg_get_In; exact G]. }
-    pose proof (EA _ c I) as H. pose proof (EO _ c I) as I1.
-    destruct (enter x c) as [x1 o]. cbn [snd fst] in *. subst o.
-    destruct (eref c) eqn:R; try (rewrite (carriers_unique cl s t c W OK U C); rewrite R; reflexivity).
-    (* the variant leaked a KeyError: refill, retry, same class again *)
-    rewrite (refill_retry_ref cl enter eref top codec k s t x1 W EO EA K OK NC U I1).
-    rewrite (carriers_unique cl s t c W OK U C). rewrite R. reflexivity.
+    rewrite (carriers_unique cl s t c W OK U C). exact (EA _ c I).
   Qed.
 
   Lemma loop_body_ref cl enter eref : enter_ok sites cl enter -> enter_agrees cl enter eref ->
